@@ -18,6 +18,8 @@ def run(ctx):
     T.check_compression(ctx)
     T.check_lookup_protocol(ctx)
     T.check_emptiness_cache(ctx)
+    T.t12_class_or_label(ctx)
+    T.t13_membership_of_total_mappings(ctx)
     ctx.floor("T1", 6)
     ctx.floor("T3", 8)
     ctx.floor("T4", 8)
